@@ -277,7 +277,8 @@ Prepared(it) ==
 StageSeq == << "oe", "nbegin", "imacro", "ds", "def", "case", "cond", "rep", "sw", "dom", "use", "repl", "omit", "stag" >>
 
 HasStage(it, st) ==
-  CASE st = "oe"   -> it.oe.m # "no"
+  CASE st = "oe"   -> it.oe.m # "no" /\ it.dm = "" /\ it.fs = ""   \* on a define-macro / fill-slot element the handler is part of
+                                                              \* the macro / the filler (InnerStart)
     [] st = "nbegin" -> it.nm # ""          \* i18n:name: the element's output is a named block of the enclosing translation
     [] st = "imacro" -> it.dm # ""          \* metal:define-macro: the element is rendered by calling its macro
     [] st = "ds"   -> it.ds # ""            \* metal:define-slot
@@ -292,11 +293,13 @@ HasStage(it, st) ==
     [] st = "omit" -> it.omit.m = "expr" /\ it.tag = "el"   \* never evaluated on tal: elements
     [] st = "stag" -> TRUE
 
+\* first stage of a macro body or of a filler: tal:on-error of the define-macro / fill-slot element guards it
 RECURSIVE FirstFrom(_, _)
 FirstFrom(it, n) == IF HasStage(it, StageSeq[n]) THEN StageSeq[n] ELSE FirstFrom(it, n + 1)
 IdxOf(st) == CHOOSE n \in 1..Len(StageSeq) : StageSeq[n] = st
 NextStage(it, st) == FirstFrom(it, IdxOf(st) + 1)
 FirstStage(it) == FirstFrom(it, 1)
+InnerFirst(it) == IF it.oe.m # "no" THEN "oe" ELSE NextStage(it, "imacro")
 
 F  == ctl[Len(ctl)]
 Frame(i, st) == [i |-> i, st |-> st, j |-> 1, c |-> i + 1, it |-> 0, its |-> <<>>, oe |-> FALSE,
@@ -414,7 +417,8 @@ KDone ==    \* children exhausted
 SOe ==      \* visit_OnError: remember the stream length
   /\ Running /\ F.st = "oe"
   /\ cells' = SetCell(CFb(F.i), VInt(Len(out)))
-  /\ ctl' = SetF([F EXCEPT !.st = NextStage(It, "oe"), !.j = 1, !.oe = TRUE])
+  /\ ctl' = SetF([F EXCEPT !.st = IF F.kind \in {"macro", "fill"} THEN NextStage(It, "imacro") ELSE NextStage(It, "oe"),
+                           !.j = 1, !.oe = TRUE])
   /\ UNCHANGED <<pid, mx, envs, glob, rep, out, log, tok, exc, res>>
 
 \* generic evaluation step for stage st with expression e; K(a) is the
@@ -865,7 +869,7 @@ CallMacro(E, H, SE, whole, lib) ==
       a == Len(mx.acts) + 1
       fr == IF whole
             THEN [Frame(0, "kids") EXCEPT !.kind = "tmpl", !.fn = a, !.c = prog.libs[lib].from, !.ke = prog.libs[lib].to + 1]
-            ELSE [Frame(E, NextStage(items[E], "imacro")) EXCEPT !.kind = "macro", !.fn = a]
+            ELSE [Frame(E, InnerFirst(items[E])) EXCEPT !.kind = "macro", !.fn = a]
   IN /\ ctl' = Append(ctl, fr)
      /\ mx' = [mx EXCEPT !.heap = p.h, !.senv = SE2, !.acts = Append(mx.acts, [sv |-> p.sv, tok |-> NoSite])]
 
@@ -944,7 +948,7 @@ SDs ==      \* visit_DefineSlot: the slot's default content, or the filler
           /\ UNCHANGED <<envs, mx>>
      ELSE \* SLOT(__stream, econtext.copy(), rcontext) -- with the i18n settings
           \* of the place where the filler was written
-          /\ ctl' = Append(ctl, [Frame(fl.i, NextStage(items[fl.i], "imacro")) EXCEPT !.kind = "fill", !.fn = fl.fn,
+          /\ ctl' = Append(ctl, [Frame(fl.i, InnerFirst(items[fl.i])) EXCEPT !.kind = "fill", !.fn = fl.fn,
                                                                                      !.ke = 0])
           /\ envs' = Append(envs, envs[Top])
           /\ mx' = [mx EXCEPT !.senv = Append(mx.senv, mx.senv[STop]),
